@@ -27,12 +27,14 @@ WordOK(e) ==
           /\ Len(e.exposed) = 2 * n
           /\ SubSeq(e.exposed, 1, n) = e.word
           /\ SubSeq(e.exposed, n + 1, 2 * n) \in honest
+\* bytes the expression does not mention all behave like the representative (the last of Case.letters)
+Canon(b) == IF b \in Letters THEN b ELSE Case.letters[Len(Case.letters)]
 TamperOK(e) ==      \* a lying prover: whatever is exposed must still be a word of the language with its markers
   e.status = "sat" =>
      LET n == Len(e.exposed) \div 2
-         w == SubSeq(e.exposed, 1, n)
+         w == [i \in 1..n |-> Canon(e.exposed[i])]
      IN /\ Len(e.exposed) = 2 * n
-        /\ \A i \in 1..n : w[i] \in 0..255
+        /\ \A i \in 1..n : e.exposed[i] \in 0..255
         /\ SubSeq(e.exposed, n + 1, 2 * n) \in MarkerSeqs(w)
 
 Bad == {i \in 1..Len(Case.runs) : ~(IF Case.runs[i].tampered THEN TamperOK(Case.runs[i]) ELSE WordOK(Case.runs[i]))}
